@@ -191,6 +191,19 @@ func (t *scriptT) takeWoken() int {
 
 func (t *scriptT) armFail() { t.mu.Lock(); t.failOpen++; t.mu.Unlock() }
 
+// waitReader waits until a reader is blocked in Read (watchdog: false).
+func (t *scriptT) waitReader() bool {
+	for dl := time.Now().Add(adpWatch); time.Now().Before(dl); time.Sleep(100 * time.Microsecond) {
+		t.mu.Lock()
+		b := t.blocked
+		t.mu.Unlock()
+		if b > 0 {
+			return true
+		}
+	}
+	return false
+}
+
 func (t *scriptT) failBudget() int { t.mu.Lock(); defer t.mu.Unlock(); return t.failOpen }
 
 var errScriptedRead = thrift.NewTTransportException(thrift.UNKNOWN_TRANSPORT_EXCEPTION, "scripted: read error")
@@ -1198,9 +1211,9 @@ func (c *adpCtl) checkInc(k int, vals []string, stillOpen bool) {
 // directions. `budget` = how many of the next underlying Opens were going to fail when the runner was
 // released, `wasOpen` = somebody else had reopened the transport already (every attempt then fails
 // with ALREADY_OPEN). Every outage starts afresh: waits at InitialWait, attempt counter at 1.
-func (c *adpCtl) checkOutage(toks []string, cfg adpCfg, budget int, wasOpen bool) {
+func outageViolations(toks []string, cfg adpCfg, budget int, wasOpen bool) (viol []string) {
 	if len(toks) == 0 || !strings.HasPrefix(toks[0], "U>") {
-		return // clean close (or nothing ran)
+		return nil // clean close (or nothing ran)
 	}
 	var r, w int
 	fmt.Sscanf(toks[0], "U>%d:%d", &r, &w)
@@ -1209,10 +1222,10 @@ func (c *adpCtl) checkOutage(toks []string, cfg adpCfg, budget int, wasOpen bool
 		wantR = cfg.reopen
 	}
 	if (r == 1) != wantR {
-		c.violate("OnClosedUncleanly's reopen decision is not the policy's")
+		viol = append(viol, "OnClosedUncleanly's reopen decision is not the policy's")
 	}
 	if w != cfg.init {
-		c.violate("the first wait of an outage is not InitialWait")
+		viol = append(viol, "the first wait of an outage is not InitialWait")
 	}
 	stopAfter := 0
 	if r == 1 {
@@ -1234,22 +1247,29 @@ func (c *adpCtl) checkOutage(toks []string, cfg adpCfg, budget int, wasOpen bool
 		var prev, pw, fr, fw int
 		fmt.Sscanf(f, "F%d:%d>%d:%d", &prev, &pw, &fr, &fw)
 		if prev != i+1 {
-			c.violate(fmt.Sprintf("OnReopenFailed was told %d previous attempts at the %d. failure of this outage (the count must restart with every outage)", prev, i+1))
+			viol = append(viol, fmt.Sprintf("OnReopenFailed was told %d previous attempts at the %d. failure of this outage (the count must restart with every outage)", prev, i+1))
 		}
 		if i == 0 && pw != cfg.init {
-			c.violate("the wait sequence of an outage does not restart at InitialWait")
+			viol = append(viol, "the wait sequence of an outage does not restart at InitialWait")
 		}
 	}
 	heals := !wasOpen && budget < stopAfter
 	switch {
 	case heals && !succeeded:
-		c.violate(fmt.Sprintf("the monitor gave up an outage the policy allows it to heal (%d failing attempts, MaxReopenAttempts %d)", budget, cfg.max))
+		viol = append(viol, fmt.Sprintf("the monitor gave up an outage the policy allows it to heal (%d failing attempts, MaxReopenAttempts %d)", budget, cfg.max))
 	case heals && len(fs) != budget:
-		c.violate("the monitor did not reopen at the first Open that could succeed")
+		viol = append(viol, "the monitor did not reopen at the first Open that could succeed")
 	case !heals && succeeded:
-		c.violate("the monitor reported a successful reopen that could not have happened")
+		viol = append(viol, "the monitor reported a successful reopen that could not have happened")
 	case !heals && len(fs) != stopAfter:
-		c.violate(fmt.Sprintf("the monitor made %d failed attempts before giving up, the policy says %d", len(fs), stopAfter))
+		viol = append(viol, fmt.Sprintf("the monitor made %d failed attempts before giving up, the policy says %d", len(fs), stopAfter))
+	}
+	return viol
+}
+
+func (c *adpCtl) checkOutage(toks []string, cfg adpCfg, budget int, wasOpen bool) {
+	for _, v := range outageViolations(toks, cfg, budget, wasOpen) {
+		c.violate(v)
 	}
 }
 
